@@ -18,11 +18,12 @@ Definition closed_flag (ls : list pline) (so : bool) : bool :=
   end.
 
 (* hypotheses of the denotation theorems, per layout: the graph seed returns is the declarative graph,
-   the loaded specification is well formed, the node encoding is increasing and links join declared nodes *)
+   the loaded specification is well formed, the node encoding is increasing and links join declared nodes,
+   every strand position sits where the layout says *)
 Definition denote_flags (ls : list pline) (so : bool) : list bool :=
   match load_spec ls pspec0 with
   | OK p => match seed p so with
-            | OK (lay, g) => [same_graph p lay so g; spec_okb p so; dgraph_ok p lay so]
+            | OK (lay, g) => [same_graph p lay so g; spec_okb p so; dgraph_ok p lay so; place_okb p lay so]
             | Err _ => [] end
   | Err _ => []
   end.
